@@ -594,7 +594,7 @@ class SliceV(Agg):
     pass
 
 
-@contract(r'^<(\[u8\]|Vec<u8>) as Index(Mut)?<std::ops::Range.*>>::index(_mut)?$')
+@contract(r'^<(\[.*\]|Vec<.*>) as Index(Mut)?<(std::ops::)?Range.*>>::index(_mut)?$')
 def c_bytes_index_range(m, st, f, a):
     v = sv(a[0])
     n = v.len if isinstance(v, StrV) else len(v.f)
@@ -676,7 +676,7 @@ def c_vec_extend_slice(m, st, f, a):
     return UNIT
 
 
-@contract(r'^<Vec<.*> as Extend<.*>>::extend::<')
+@contract(r'^<(Vec|VecDeque)<.*> as Extend<.*>>::extend::<')
 def c_vec_extend_iter(m, st, f, a):
     v = sv(a[0]); it = a[1]
     if isinstance(it, Iter) and not it.ops:
@@ -686,7 +686,7 @@ def c_vec_extend_iter(m, st, f, a):
     return drive_iter(m, st, it, 'extend', a[0])
 
 
-@contract(r'^<Vec<.*> as IntoIterator>::into_iter$')
+@contract(r'^<(Vec<.*>|\[.*; \d+\]) as IntoIterator>::into_iter$')
 def c_vec_into_iter(m, st, f, a): return Iter(list(a[0].f))
 
 
@@ -804,6 +804,7 @@ def c_iter_adapt(m, st, f, a):
     it = a[0]
     op = re.search(r' as Iterator>::(\w+)', f).group(1)
     base = sv(it) if isinstance(it, Ref) else it
+    if isinstance(base, Agg) and not base.ty: base = Iter(list(base.f))       # array::IntoIter
     if not isinstance(base, Iter):
         base = crate_iter(m, f, it)
         if base is None: raise Inconclusive('iterator adaptor %s on %r' % (op, sv(it)))
@@ -925,6 +926,9 @@ class IterDriver(Native):
         elif md == 'fold':
             self.waiting = 'consume'
             m.invoke(st, self.arg, [self.acc, x], ('native',))
+        elif md == 'try_for_each':
+            self.waiting = 'consume'
+            m.invoke(st, self.arg, [x], ('native',))
         elif md in ('max', 'min', 'sum'):
             self.out.append(x)
         else:
@@ -934,6 +938,13 @@ class IterDriver(Native):
         md = self.mode
         if md == 'for_each': return
         if md == 'fold': self.acc = v; return
+        if md == 'try_for_each':
+            k = disc_of(m, st, v)
+            cont = (k == 0) if v.ty == 'Result' else ((k == 1) if v.ty == 'Option' else (k == 0))
+            if not cont:
+                st.frames.pop(); m.deliver(st, self.ret, v)
+            else: self.last_ok = v
+            return
         if md == 'any':
             if bool_val(m, st, v): st.frames.pop(); m.deliver(st, self.ret, True)
         elif md == 'all':
@@ -956,6 +967,7 @@ class IterDriver(Native):
         elif md == 'extend':
             sv(self.arg).f.extend(self.out); r = UNIT
         elif md == 'for_each': r = UNIT
+        elif md == 'try_for_each': r = getattr(self, 'last_ok', None) or ok(UNIT)
         elif md == 'fold': r = self.acc
         elif md == 'any': r = False
         elif md == 'all': r = True
@@ -990,8 +1002,21 @@ def crate_iter(m, f, it):
     return None
 
 
+def range_items(m, st, r):
+    lo, hi = r.f[0], r.f[1]
+    n0, n1 = conc_int(lo), conc_int(hi)
+    if n0 is not None and n1 is not None: return [IntV(i, lo.ty) for i in range(n0, n1)]
+    if not bool_val(m, st, binop('Lt', lo, hi)): return []
+    k = m.concretize(st, binop('Sub', hi, lo), range(1, m.loop_bound + 1))
+    return [binop('Add', lo, IntV(i, lo.ty)) for i in range(k)]
+
+
 def drive_iter(m, st, it, mode, arg, fname=''):
     base = sv(it) if isinstance(it, Ref) else it
+    if isinstance(base, Agg) and base.ty == 'Range':
+        items = range_items(m, st, base)
+        if isinstance(it, Ref): base.f[0] = base.f[1]
+        base = Iter(items)
     if not isinstance(base, Iter):
         base = crate_iter(m, fname, it)
         if base is None: raise Inconclusive('iterator consumer %s on %r' % (mode, sv(it)))
@@ -1028,6 +1053,10 @@ def c_iter_for_each(m, st, f, a): return drive_iter(m, st, a[0], 'for_each', a[1
 @contract(r'^<.* as Iterator>::(any|all|find|position|find_map)::<', 8)
 def c_iter_any(m, st, f, a):
     return drive_iter(m, st, a[0], re.search(r'Iterator>::(\w+)', f).group(1), a[1], f)
+
+
+@contract(r'^<.* as Iterator>::try_for_each::<', 8)
+def c_iter_try_for_each(m, st, f, a): return drive_iter(m, st, a[0], 'try_for_each', a[1], f)
 
 
 @contract(r'^<.* as Iterator>::fold::<', 8)
@@ -1485,3 +1514,67 @@ def c_slice_sort(m, st, f, a):
     def fin(items, v=None):
         tgt = sv(r); tgt.f[:] = items; return UNIT
     return _sort(m, st, f, a[0], a[1] if len(a) > 1 else None, mode, 'unstable' not in op, fin)
+
+
+# ---------------------------------------------------------------------------------------------- more Vec / Rc
+@contract(r'^<(Vec|VecDeque)<.*> as FromIterator<.*>>::from_iter::<', 3)
+def c_vec_from_iter(m, st, f, a):
+    it = a[0]
+    v = sv(it) if isinstance(it, Ref) else it
+    if isinstance(v, Iter):
+        if not v.ops and v.src is None: return vec(v.items[v.pos:])
+        return drive_iter(m, st, it, 'collect', None, f)
+    if isinstance(v, Agg): return vec(list(v.f))
+    ci = crate_iter(m, f, it)
+    if ci is not None: return drive_iter(m, st, ci, 'collect', None, f)
+    raise Inconclusive('Vec::from_iter of %r' % (v,))
+
+
+@contract(r'^(Rc|Arc|std::rc::Rc|std::sync::Arc)::<.*>::make_mut$', 3)
+def c_rc_make_mut(m, st, f, a):
+    # clone-on-write: always move to a private copy (observationally equal to mutating in place when the Rc is unique)
+    r = a[0]; rc = deref(r)
+    new = Ref(Cell(copy_val(deref(rc)), tag='heap'))
+    store(r, new)
+    return new
+
+
+@contract(r'^(Rc|Arc)::<.*>::(ptr_eq)$', 3)
+def c_rc_ptr_eq(m, st, f, a):
+    x, y = deref(a[0]), deref(a[1])
+    return x.cell is y.cell and x.path == y.path
+
+
+@contract(r'^Vec::<.*>::(insert)$', 3)
+def c_vec_insert(m, st, f, a):
+    v = sv(a[0]); k = _index_conc(m, st, a[1], len(v.f) + 1)
+    if k > len(v.f): raise Panic('Vec::insert index out of bounds')
+    v.f.insert(k, a[2]); return UNIT
+
+
+@contract(r'^Vec::<.*>::(remove)$', 3)
+def c_vec_remove(m, st, f, a):
+    v = sv(a[0]); k = _index_conc(m, st, a[1], len(v.f))
+    if k >= len(v.f): raise Panic('Vec::remove index out of bounds')
+    return v.f.pop(k)
+
+
+# ---------------------------------------------------------------------------------------------- RangeBounds
+def _bound(kind, ref_or_none):
+    i = {'Included': 0, 'Excluded': 1, 'Unbounded': 2}[kind]
+    return Enum('Bound', i, {i: Agg([ref_or_none] if ref_or_none is not None else [])})
+
+
+@contract(r'^<.* as RangeBounds<.*>>::(start_bound|end_bound)$', 3)
+def c_range_bounds(m, st, f, a):
+    r = a[0]; v = deref(r)
+    kind = _range_kind(f.split(' as RangeBounds')[0] + '<') if 'Range' in f.split(' as RangeBounds')[0] else (v.ty or '')
+    start = f.endswith('start_bound')
+    fld = lambda k: Ref(r.cell, r.path + (k,))
+    if kind == 'Range': return _bound('Included', fld(0)) if start else _bound('Excluded', fld(1))
+    if kind == 'RangeFrom': return _bound('Included', fld(0)) if start else _bound('Unbounded', None)
+    if kind == 'RangeTo': return _bound('Unbounded', None) if start else _bound('Excluded', fld(0))
+    if kind == 'RangeToInclusive': return _bound('Unbounded', None) if start else _bound('Included', fld(0))
+    if kind == 'RangeInclusive': return _bound('Included', fld(0)) if start else _bound('Included', fld(1))
+    if kind == 'RangeFull': return _bound('Unbounded', None)
+    raise Inconclusive('RangeBounds of ' + f)
